@@ -36,11 +36,11 @@ TRUSTED = [
 ASSUMPTIONS = ["Actuator.run does not modify the BacktestData it is given (checked per run)", "start method fork (Linux)"]
 
 HERE = os.path.dirname(os.path.abspath(__file__))
-BEHAVIOURS = ["idle", "add1", "add2", "addremove", "buy", "sell", "rebalance", "add_b", "failing", "aave_s", "aave_sb"]
+BEHAVIOURS = ["idle", "add1", "add2", "addremove", "buy", "sell", "rebalance", "add_b", "failing", "aave_s", "aave_sb", "indicator", "follower"]
 # effect of a behaviour on the number of open positions on the first market and on the second market (Uniswap positions, or Aave
 # supplies when the second market is Aave): the projection the manager model is run on
 POS_EFFECT = {"idle": (0, 0), "add1": (1, 0), "add2": (2, 0), "addremove": (0, 0), "buy": (0, 0), "sell": (0, 0), "rebalance": (0, 0),
-              "add_b": (0, 1), "failing": (0, 0), "aave_s": (0, 1), "aave_sb": (0, 1)}
+              "add_b": (0, 1), "failing": (0, 0), "aave_s": (0, 1), "aave_sb": (0, 1), "indicator": (0, 0), "follower": (0, 0)}
 MARKET_SETS = [["uni_a"], ["uni_a", "uni_b"], ["uni_a", "aave"]]
 
 
@@ -127,8 +127,25 @@ def make_strategy_class():
             except Exception as e:  # noqa: BLE001
                 self.notes.append(what + ":" + type(e).__name__)
 
+        def initialize(self):
+            if self.behaviour == "indicator":
+                # the documented way to attach an indicator: Strategy.add_column writes a column into the market's data frame
+                import pandas as pd
+                m = self._m(0)
+                self.add_column(m, "sig", pd.Series(index=m.data.index, data=[k % 3 for k in range(len(m.data.index))]))
+
         def on_bar(self, snapshot):
             b, r = self.behaviour, snapshot.row_id
+            if b == "indicator" and r in (2, 5):
+                sig = snapshot.market_status[self._m(0).market_info].sig
+                self._try(f"sig{sig}", lambda: self._m(0).buy(Decimal("0.2")) if sig == 2 else self._m(0).sell(Decimal("0.1")))
+            elif b == "follower" and r == 4:
+                # acts on an indicator column only if somebody put one there
+                row = snapshot.market_status[self._m(0).market_info]
+                if "sig" in getattr(row, "index", []):
+                    self._try("saw-sig", lambda: self._m(0).buy(Decimal("0.5")))
+                else:
+                    self.notes.append("no-sig")
 
             def add(k, width, frac):
                 m = self._m(k)
@@ -373,6 +390,9 @@ def gen_cases(ctx):
         cases.append(dict(base_spec(rng, MARKET_SETS[0], 12), threads=threads, behaviours=["add1", "idle"], order=[0, 1], order_kind="id"))
     cases.append(dict(base_spec(rng, MARKET_SETS[1], 12), threads=1, behaviours=["add_b", "add1", "idle"], order=[0, 1, 2], order_kind="id"))
     cases.append(dict(base_spec(rng, MARKET_SETS[2], 12), threads=1, behaviours=["aave_sb", "idle", "aave_s"], order=[0, 1, 2], order_kind="id"))
+    # a strategy that adds an indicator column, followed by one that would act on such a column: the data frames are shared too
+    for threads in (1, 2):
+        cases.append(dict(base_spec(rng, MARKET_SETS[0], 12), threads=threads, behaviours=["indicator", "follower", "follower"], order=[0, 1, 2], order_kind="id"))
     # all orders of one three-strategy set, sequential and pooled
     base = base_spec(rng, MARKET_SETS[2], 12)
     for threads in (1, 2):
